@@ -46,6 +46,8 @@ class _NullSelector(selectors.BaseSelector):
                 # a loaded host wakes the loop late: `lateness()` seconds after the earliest timer is due
                 late = loop.lateness() if getattr(loop, "lateness", None) else 0.0
                 loop._vtime = when + late
+                if late and getattr(loop, "on_late", None):
+                    loop.on_late(when, late)
         return []
 
     def close(self):
